@@ -26,7 +26,7 @@ RULE = (
     "whose Hill order differs from Z order; distinct by string."
 )
 MANIFEST = {
-    "text": "Differential search against an independent reference reader derived from the published EBNF: every generated string (valid by construction, single-token edits of valid ones, index/duplicate boundaries) must get the same accept/reject decision, be rejected only with TucanParserException, and on acceptance denote exactly the same graph. Case kinds are drawn first so accepted and rejected strings are both well represented. Thorough additionally enumerates complete single-edit neighbourhoods and runs a coverage-guided (Atheris) campaign over the same oracle.",
+    "text": "Differential search against an independent reference reader derived from the published EBNF: every generated string (valid by construction, single-token edits of valid ones, index/duplicate boundaries) must get the same accept/reject decision, be rejected only with TucanParserException, and on acceptance denote exactly the same graph. Case kinds are drawn first so accepted and rejected strings are both well represented. Both tiers enumerate the COMPLETE single-token edit neighbourhood (every insertion/replacement over the token alphabet + junk, every deletion, every transposition) of 8 (quick) / 64 (thorough) drawn sentences; thorough additionally runs a coverage-guided Atheris campaign over the same oracle.",
     "note": "Trusted: the EBNF interpreter (self-tested on frozen examples at start-up) and the denotation layer. Bounds: numerals <= 40 digits, formula atom total <= 6000 (CPython int/ memory limits).",
     "technique": "property-based differential testing vs a reference reader built from the published EBNF (Hypothesis, 16 shards) + Atheris coverage-guided fuzzing in the thorough tier",
 }
